@@ -337,10 +337,21 @@ func Start(bin string) (*Session, error) {
 	}
 	var eb bytes.Buffer
 	cmd.Stderr = &eb
+	if f := os.Getenv("VERIF_PROBE_STDERR"); f != "" { // debugging aid: keep a probe's stderr (goroutine dumps on SIGQUIT) in a file
+		if fh, err := os.OpenFile(f, os.O_CREATE|os.O_APPEND|os.O_WRONLY, 0o644); err == nil {
+			cmd.Stderr = io.MultiWriter(&eb, fh)
+		}
+	}
 	if err := cmd.Start(); err != nil {
 		return nil, err
 	}
-	return &Session{cmd: cmd, in: in, out: json.NewDecoder(outp), Stderr: &eb}, nil
+	var rd io.Reader = outp
+	if f := os.Getenv("VERIF_PROBE_STDOUT"); f != "" { // debugging aid
+		if fh, err := os.OpenFile(f, os.O_CREATE|os.O_APPEND|os.O_WRONLY, 0o644); err == nil {
+			rd = io.TeeReader(outp, fh)
+		}
+	}
+	return &Session{cmd: cmd, in: in, out: json.NewDecoder(rd), Stderr: &eb}, nil
 }
 
 // Do sends one case and decodes one result; a dead process is reported as crashed=true.
